@@ -637,13 +637,14 @@ def case_jobs_free(c):
     jobs = [NumJob(i, x, mode, d) for i, (x, mode, d) in enumerate(c["jobs"])]
     GATED.value = 0
     items, raised = [], None
+    WATCH[0] = Watch()
     try:
-        for it in process_mod.Process.run_jobs(jobs, c["cores"]):
+        for it in WatchedProcess.run_jobs(jobs, c["cores"]):
             items.append(it)
     except AssertionError as e:
         inner = e.args[0] if e.args else None
         raised = ["AssertionError", inner.args[0] if isinstance(inner, Exception) and inner.args else None]
-    except (Stall, CaseTimeout):
+    except (Stall, CaseTimeout, RaceHang):
         raise
     except Exception as e:  # noqa
         raised = [type(e).__name__, str(e)[:80]]
@@ -658,26 +659,71 @@ class TrivialJob(process_mod.AbstractJob):
         return GridJobResult(SimpleNamespace(samples_summary=self.number), [self.number], self.number)
 
 
+class RaceHang(Exception):
+    """every worker of a free-running run_jobs call has exited, every result queue is empty, and the main loop
+    still waits for results: nothing can ever arrive"""
+
+
+class Watch:
+    def __init__(self):
+        self.procs, self.reals, self.polls, self.dead = [], [], 0, 0
+
+
+WATCH = [None]
+
+
+class WatchedQueue:
+    """parent side: forwards to the real queue and recognises the dead state; child side: forwards"""
+
+    def __init__(self, real, watch):
+        self._real, self._watch = real, watch
+
+    def empty(self):
+        r = self._real.empty()
+        w = self._watch
+        if r:
+            w.polls += 1
+            if w.polls % 500 == 0:
+                if all(not p.is_alive() for p in w.procs) and all(q.empty() for q in w.reals):
+                    w.dead += 1
+                    if w.dead >= 3:
+                        raise RaceHang("all %d workers have exited, no result is queued, the main loop still polls" % len(w.procs))
+                else:
+                    w.dead = 0
+        return r
+
+    def __getattr__(self, name):
+        return getattr(self._real, name)
+
+
+class WatchedProcess(process_mod.Process):
+    """the real Process, free-running; only the parent-side `queue` attribute is wrapped to recognise a hang"""
+
+    def __init__(self, name, job_queue, **kw):
+        super().__init__(name, job_queue, **kw)
+        w = WATCH[0]
+        w.procs.append(self)
+        w.reals.append(self.queue)
+        self.queue = WatchedQueue(self.queue, w)
+
+
 def case_jobs_race(c):
     """Process.run_jobs free-running on quick jobs, repeated: does every call return?"""
     GATED.value = 0
     hangs, wrong = 0, 0
     for _ in range(c["repeat"]):
-        signal.alarm(0)
-        signal.alarm(c.get("limit", 3))
+        WATCH[0] = Watch()
         try:
-            items = list(process_mod.Process.run_jobs([TrivialJob(number=i) for i in range(c["jobs"])], c["cores"]))
+            items = list(WatchedProcess.run_jobs([TrivialJob(number=i) for i in range(c["jobs"])], c["cores"]))
             if sorted(it.number for it in items) != list(range(c["jobs"])):
                 wrong += 1
-        except CaseTimeout:
+        except RaceHang:
             hangs += 1
-        finally:
-            signal.alarm(0)
-            alive = mp.active_children()
-            for p in alive:
-                p.terminate()
-            for p in alive:
-                p.join(1.0)
+        alive = mp.active_children()
+        for p in alive:
+            p.terminate()
+        for p in alive:
+            p.join(1.0)
     return {"hangs": hangs, "wrong": wrong, "calls": c["repeat"]}
 
 
@@ -689,15 +735,17 @@ def main():
     cases = json.load(open(sys.argv[1]))["cases"]
     out = []
     for c in cases:
-        signal.alarm(8 if c["kind"] == "jobs_free" else 90)
+        signal.alarm(120)
         try:
             t0 = time.time()
             out.append({"ok": KINDS[c["kind"]](c)})
             out[-1]["t"] = [round(time.time() - t0, 3)]
         except Stall as e:
             out.append({"exc": "Stall", "msg": str(e)[:300]})
+        except RaceHang as e:
+            out.append({"exc": "RaceHang", "msg": str(e)[:300]})
         except CaseTimeout:
-            out.append({"exc": "Timeout", "msg": "case did not finish within its time limit"})
+            out.append({"exc": "Timeout", "msg": "case did not finish within 120 s"})
         except BaseException as e:  # noqa
             import traceback
             out.append({"exc": type(e).__name__, "msg": (str(e) + " | " + traceback.format_exc()[-600:])[:900]})
